@@ -9,7 +9,7 @@
      CB <hashes> <bufsz> <dghex> <sz> <comb> <lim|-> <script>
      VR <hashes> <dghex> <sz> <comb> <script> <ops>          ops: r<k> | v , comma separated
      ST <hashes> <kind> <n> { <namehex> <mthex> <dghex> <sz> <comb> <script> }*n
-        kind: mem | lim<limit> | oci | file *)
+        kind: mem | lim<limit> | oci | olim<limit> | file *)
 let fnv (s : n list) : int =
   List.fold_left (fun h c -> ((h lxor (int_of_n c)) * 16777619) land 0xFFFFFFFF) 2166136261 s
 let djb (s : n list) : int =
@@ -114,10 +114,13 @@ let () =
           Printf.sprintf "%s X%d F%s" (res_name e) (if c = None then 0 else 1) (fetch_obs c d.d_dg d.d_sz));
         Buffer.add_string buf ("B=" ^ listing (List.map (fun (d, c) ->
           Printf.sprintf "%s/%s/%d/%s" (hex_of_str d.d_mt) (hex_of_str d.d_dg) (int_of_z d.d_sz) (digest_str c)) !st))
-      end else if kind = "oci" then begin
+      end else if kind = "oci" || (String.length kind > 4 && String.sub kind 0 4 = "olim") then begin
         let st = ref [] in
         pushes n rest (fun _ d comb evs ->
-          let (e, st') = oci_push h comb fixed (fuel_of evs) !st d (base_of evs "-") in
+          let (e, st') =
+            if kind = "oci" then oci_push h comb fixed (fuel_of evs) !st d (base_of evs "-")
+            else limited_push (fun s d b -> oci_push h comb fixed (fuel_of evs) s d b)
+                (z_of_int (int_of_string (String.sub kind 4 (String.length kind - 4)))) !st d evs in
           st := st';
           let (xe, x) = oci_exists !st d in
           let xs = match xe with Some e -> err_name e | None -> if x then "1" else "0" in
